@@ -96,6 +96,15 @@ def run_narrow(prog, rep):
                 continue
             n += 1
             reason = TABLE.get((fq, to_c))
+            if not reason and st in ('size_t', 'unsigned long', 'std::size_t') or (not reason and 'size_type' in st):
+                # a size_t that counts members of an in-memory container (rank, number of columns, loop index over them) is not an extent:
+                # only values that derive from data extents (nelms, NDSize elements, dataExtent) are obligations
+                org = Flow(Sem(prog), f).origins(src)
+                extentish = [o for o in org if o[0] == 'call' and o[1] in ('nelms', 'dataExtent', 'size', 'rows', 'positionCount', 'valueCount') and
+                             ((o[1] != 'size') or 'DataSet' in ((o[2].callee or {}).get('cls') or '') or 'DataArray' in ((o[2].callee or {}).get('cls') or ''))]
+                if not extentish:
+                    rule.ok('%s|cast-to-%s' % (fq, to_c), rep.where(c), f.label(), 'member count / index of an in-memory container (%s), not a data extent' % src.src(30), nontrivial=False)
+                    continue
             if reason:
                 rule.ok('%s|cast-to-%s' % (fq, to_c), rep.where(c), f.label(), 'tabled: ' + reason, nontrivial=False)
             else:
